@@ -26,7 +26,7 @@ func swapSites(c *Ctx, rule string, fn *Func) []swapSite {
 	seenAssign := map[ast.Node]bool{}
 	for _, call := range p.callsIn(fn, "objects.Allocation.SetRelease") {
 		rc := Recv(call)
-		if rc == nil || len(call.Args) != 1 {
+		if rc == nil || len(call.Args) < 1 {
 			continue
 		}
 		// only the real->placeholder direction identifies the pair; the other direction is checked in C06.b
@@ -131,7 +131,7 @@ func checkSwapPreconditions(c *Ctx, rule string, sizeOnly bool) {
 			}
 			for _, cc := range p.chain(a.term(rc)) {
 				sub, ok := unparen(cc.E).(*ast.CallExpr)
-				if ok && p.IsCall(sub, "resources.Sub") && len(sub.Args) == 2 {
+				if ok && p.IsCall(sub, "resources.Sub") && len(sub.Args) >= 2 {
 					t0 := Term{E: sub.Args[0], Env: cc.Env, Idx: -1}
 					t1 := Term{E: sub.Args[1], Env: cc.Env, Idx: -1}
 					if p.IsResOf(t0, phT) && p.IsResOf(t1, reqT) {
@@ -193,7 +193,7 @@ func rulesC06(c *Ctx) {
 			st := p.StateAt(fn, call)
 			reqT := T(call.Args[1], st)
 			same := func(e ast.Expr, at *ast.CallExpr, t Term) bool { return e != nil && p.Same(T(e, p.StateAt(fn, at)), t) }
-			alloc := p.DoneCall(st, func(cl *ast.CallExpr) bool { return len(cl.Args) == 1 && same(cl.Args[0], cl, reqT) }, "objects.Application.allocateAsk")
+			alloc := p.DoneCall(st, func(cl *ast.CallExpr) bool { return len(cl.Args) >= 1 && same(cl.Args[0], cl, reqT) }, "objects.Application.allocateAsk")
 			c.Check("C06.b", "allocateAsk before Replaced result", call, alloc != nil, "Replaced result without allocateAsk(request)")
 			link1 := p.DoneCall(st, func(cl *ast.CallExpr) bool { return same(Recv(cl), cl, reqT) }, "objects.Allocation.SetRelease")
 			c.Check("C06.b", "real->placeholder link before Replaced result", call, link1 != nil, "Replaced result without request.SetRelease(ph)")
@@ -202,17 +202,17 @@ func rulesC06(c *Ctx) {
 			if link1 != nil {
 				phT = T(link1.Args[0], p.StateAt(fn, link1))
 				link2 := p.DoneCall(st, func(cl *ast.CallExpr) bool {
-					return same(Recv(cl), cl, phT) && len(cl.Args) == 1 && same(cl.Args[0], cl, reqT)
+					return same(Recv(cl), cl, phT) && len(cl.Args) >= 1 && same(cl.Args[0], cl, reqT)
 				}, "objects.Allocation.SetRelease")
 				link2ok = link2 != nil
 				relOK = p.Holds(st, p.ResultNilAtom(true, func(cl *ast.CallExpr, a Atom) bool {
-					return Recv(cl) != nil && p.Same(a.term(Recv(cl)), phT) && len(cl.Args) == 1 && p.isConstBool(cl.Args[0], true)
+					return Recv(cl) != nil && p.Same(a.term(Recv(cl)), phT) && len(cl.Args) >= 1 && p.isConstBool(cl.Args[0], true)
 				}, "objects.Allocation.SetReleased"))
 			}
 			c.Check("C06.b", "placeholder->real link before Replaced result", call, link2ok, "Replaced result without ph.SetRelease(request)")
 			c.Check("C06.b", "placeholder marked released before Replaced result", call, relOK, "Replaced result without ph.SetReleased(true) == nil; facts: %v", p.FactStrings(st))
 			nodeSet := p.DoneCall(st, func(cl *ast.CallExpr) bool {
-				return same(Recv(cl), cl, reqT) && len(cl.Args) == 1 && p.Same(T(cl.Args[0], p.StateAt(fn, cl)), T(call.Args[0], st))
+				return same(Recv(cl), cl, reqT) && len(cl.Args) >= 1 && p.Same(T(cl.Args[0], p.StateAt(fn, cl)), T(call.Args[0], st))
 			}, "objects.Allocation.SetNodeID")
 			c.Check("C06.b", "node id bound before Replaced result", call, nodeSet != nil, "Replaced result without request.SetNodeID(<the node of the result>)")
 		}
@@ -258,16 +258,16 @@ func rulesC06(c *Ctx) {
 			nrev++
 			after := func(cl *ast.CallExpr) bool { return cl.Pos() > link.Pos() }
 			same := func(e ast.Expr, at *ast.CallExpr, t Term) bool { return e != nil && p.Same(T(e, p.StateAt(fn, at)), t) }
-			d1 := p.DoneCall(st, func(cl *ast.CallExpr) bool { return after(cl) && len(cl.Args) == 1 && same(cl.Args[0], cl, reqT) }, "objects.Application.deallocateAsk")
+			d1 := p.DoneCall(st, func(cl *ast.CallExpr) bool { return after(cl) && len(cl.Args) >= 1 && same(cl.Args[0], cl, reqT) }, "objects.Application.deallocateAsk")
 			c.Check("C06.c", "revert: deallocateAsk", ex, d1 != nil, "exit after a failed placeholder release without deallocateAsk(request)")
 			d2 := p.DoneCall(st, func(cl *ast.CallExpr) bool { return after(cl) && same(Recv(cl), cl, reqT) }, "objects.Allocation.ClearRelease")
 			c.Check("C06.c", "revert: real ask link cleared", ex, d2 != nil, "exit after a failed placeholder release without request.ClearRelease()")
 			d3 := p.DoneCall(st, func(cl *ast.CallExpr) bool { return after(cl) && same(Recv(cl), cl, phT) }, "objects.Allocation.ClearRelease")
 			c.Check("C06.c", "revert: placeholder link cleared", ex, d3 != nil, "exit after a failed placeholder release without ph.ClearRelease()")
-			if try := p.DoneCall(st, func(cl *ast.CallExpr) bool { return len(cl.Args) == 1 && same(cl.Args[0], cl, reqT) }, "objects.Node.TryAddAllocation"); try != nil {
+			if try := p.DoneCall(st, func(cl *ast.CallExpr) bool { return len(cl.Args) >= 1 && same(cl.Args[0], cl, reqT) }, "objects.Node.TryAddAllocation"); try != nil {
 				nodeT := T(Recv(try), p.StateAt(fn, try))
 				d4 := p.DoneCall(st, func(cl *ast.CallExpr) bool {
-					return cl.Pos() > try.Pos() && same(Recv(cl), cl, nodeT) && len(cl.Args) == 1 && p.IsKeyOf(T(cl.Args[0], p.StateAt(fn, cl)), reqT)
+					return cl.Pos() > try.Pos() && same(Recv(cl), cl, nodeT) && len(cl.Args) >= 1 && p.IsKeyOf(T(cl.Args[0], p.StateAt(fn, cl)), reqT)
 				}, "objects.Node.RemoveAllocation")
 				c.Check("C06.c", "revert: node allocation removed", ex, d4 != nil, "exit after a failed placeholder release without node.RemoveAllocation(key(request))")
 			}
@@ -319,7 +319,7 @@ func rulesC06(c *Ctx) {
 				}
 			}
 			c.Check("C06.d", "real allocation added only for a linked, removed placeholder", call, nn && fromRel, "addAllocationInternal(Replaced, x) where x is not a non-nil ph.GetRelease() of the placeholder just removed")
-			ok := len(call.Args) == 2 && p.Src(call.Args[0]) == "Replaced"
+			ok := len(call.Args) >= 2 && p.Src(call.Args[0]) == "Replaced"
 			c.Check("C06.d", "added with result type Replaced", call, ok, "ReplaceAllocation adds with type %s", p.Src(call.Args[0]))
 		}
 		c.Floor("C06.d", "addAllocationInternal in ReplaceAllocation", len(calls), 1)
@@ -417,7 +417,7 @@ func rulesC06(c *Ctx) {
 		napp := 0
 		p.InspectDeep(fn, func(n ast.Node) bool {
 			call, ok := n.(*ast.CallExpr)
-			if !ok || len(call.Args) != 2 {
+			if !ok || len(call.Args) < 2 {
 				return true
 			}
 			if id, ok := unparen(call.Fun).(*ast.Ident); !ok || id.Name != "append" {
@@ -438,7 +438,7 @@ func rulesC06(c *Ctx) {
 		c.Floor("C06.e", "appends to release lists on timeout", napp, 3)
 		notif := p.callsIn(fn, "objects.Application.notifyRMAllocationReleased")
 		for _, call := range notif {
-			c.Check("C06.e", "timeout releases use termination type TIMEOUT", call, len(call.Args) == 3 && p.Src(call.Args[1]) == "si.TerminationType_TIMEOUT", "release announced with %s", p.Src(call.Args[1]))
+			c.Check("C06.e", "timeout releases use termination type TIMEOUT", call, len(call.Args) >= 3 && p.Src(call.Args[1]) == "si.TerminationType_TIMEOUT", "release announced with %s", p.Src(call.Args[1]))
 		}
 		c.Floor("C06.e", "release notifications on timeout", len(notif), 3)
 		rm := p.callsIn(fn, "objects.Application.removeAsksInternal")
